@@ -84,12 +84,12 @@ int main(int argc, char** argv)
         const ivec rowmajor = {0, 1, 2, 3, 4, 5};
         const int  colmajor[6] = {0, 3, 1, 4, 2, 5};
         judge_view<int32_t>(cx, "selftest", rowmajor, b.cp(), nullptr, 6,
-                            [&](const idx_t j) { return b.cp()[colmajor[j]]; }, none_t{}, none_t{}, {});
+                            [&](const idx_t j) { return b.cp()[colmajor[j]]; }, none_t{}, none_t{}, {}, true);
         const bool rejects = scratch.violation_count() == 1;
         report_t   scratch2("selftest", args);
         ctx_t      cx2{scratch2, "selftest:0", "int32", "[2,3]", "selftest", {}, 0, 0};
         judge_view<int32_t>(cx2, "selftest", rowmajor, b.cp(), nullptr, 6, [&](const idx_t j) { return b.cp()[j]; },
-                            none_t{}, none_t{}, {});
+                            none_t{}, none_t{}, {}, true);
         const bool accepts = scratch2.violation_count() == 0;
         // reshape alphabet: 12 has 6 one/two-factor explicit factorisations + 1 (one factor)...
         size_t explicit12 = 0, inferred0 = 0;
@@ -125,12 +125,23 @@ int main(int argc, char** argv)
                                              : "heap blocks with 32-element canary zones on both sides"));
     r.assume("tensor_mem_t element blocks are allocated by Eigen; only blocks of mapped tensors are exactly sized");
 
+    uint64_t   ev_mark = 0, nt_mark = 0;
+    const auto lattice_done = [&](const std::string& name)
+    {
+        r.note("evaluations." + name, std::to_string(r.evaluations - ev_mark));
+        r.note("nontrivial." + name, std::to_string(r.nontrivial - nt_mark));
+        ev_mark = r.evaluations;
+        nt_mark = r.nontrivial;
+    };
+
     // ---- shape lattice ---------------------------------------------------------------------------------------
-    const auto shapes = small_shapes();
+    const auto maxdim5 = static_cast<idx_t>(args.geti("maxdim5", 3));
+    const auto shapes  = small_shapes(maxdim5);
     {
         lattice_t lat;
         lat.axis("shape", shapes.size(),
-                 jstr("rank 1..4 with every dimension in 0..4, rank 5 with every dimension in 0..3 (5+25+125+625+1024)"));
+                 jstr("rank 1..4 with every dimension in 0..4, rank 5 with every dimension in 0.." + std::to_string(maxdim5) +
+                      " (5+25+125+625+" + std::to_string(shapes.size() - 780) + " shapes)"));
         lat.axis("type", types.size(), jarr_str(types));
         lat.describe(r, "shape.");
         r.axis("shape.per_case",
@@ -152,6 +163,8 @@ int main(int argc, char** argv)
         });
     }
 
+    lattice_done("shape");
+
     // ---- larger shapes (finite list) ---------------------------------------------------------------------------
     const auto larges = large_shapes();
     {
@@ -172,6 +185,8 @@ int main(int argc, char** argv)
             cx.done();
         });
     }
+
+    lattice_done("large");
 
     // ---- remove_if -----------------------------------------------------------------------------------------------
     {
@@ -198,6 +213,8 @@ int main(int argc, char** argv)
         });
     }
 
+    lattice_done("removeif");
+
     // ---- stack ---------------------------------------------------------------------------------------------------
     {
         const auto scs = stack_cases();
@@ -215,6 +232,8 @@ int main(int argc, char** argv)
             cx.done();
         });
     }
+
+    lattice_done("stack");
 
     // ---- the ambiguous -1 (recorded, not judged) -------------------------------------------------------------------
     if (args.one.empty() && args.shard == 0)
